@@ -760,7 +760,7 @@ UNIT = {
           rewrites=[("p.recursion_limit.decrement()\n", "p.recursion_limit.decrement();\n", 1)]),
 
         # ---------------- the value cycle: value -> list_value -> value, value -> object_value -> object_field -> value ----------------
-        G(VAL, "enum_value", [GWF, EOF_STABLE, MIN_SIG(1), ("ensures", "conserved", "final(p).conserved(old(p))"),
+        G(VAL, "enum_value", [GWF, ("ensures", "true_false_null_are_not_enum_values", '(old(p).at_kind(TokenKind::Name) && (old(p).current_token->0.data == "true" || old(p).current_token->0.data == "false" || old(p).current_token->0.data == "null")) ==> !(final(p).errors@.len() == old(p).errors@.len() && final(p).accept_errors)', ["C05"]), EOF_STABLE, MIN_SIG(1), ("ensures", "conserved", "final(p).conserved(old(p))"),
                               ("ensures", "fuel", "final(p).fuel() <= old(p).fuel() && ((old(p).current_token is Some && old(p).current_token->0.kind is Name) ==> final(p).fuel() < old(p).fuel())")],
           hints=[("body_start", None, "broadcast use lemma_conserved_trans_auto;")]),
         G(VAL, "default_value", [GWF, EOF_STABLE, MIN_SIG(2), ("requires", "significant_lookahead", "old(p).current_token is Some && !ignored_kind(old(p).current_token->0.kind)"), ("ensures", "conserved", "final(p).conserved(old(p))"), ("ensures", "fuel", "final(p).fuel() <= old(p).fuel()")],
@@ -802,12 +802,12 @@ UNIT = {
            inline_combinators=1, n_loops=1,
            loops=[gloop(extra=[("a_selection_means_a_token", "has_selection ==> ((p.clean_since(old(p)) && !p.eof_consumed()) ==> p.builder.nsig() >= old(p).builder.nsig() + 1)", ["C05"])])]),
         GF("fragment.rs", "fragment_definition", min_sig=7, progress=LOOK),
-        GF("fragment.rs", "fragment_name", min_sig=1),
-        GF("fragment.rs", "type_condition", min_sig=2),
+        GF("fragment.rs", "fragment_name", extra=[("ensures", "on_is_not_a_fragment_name", '(old(p).at_kind(TokenKind::Name) && old(p).current_token->0.data == "on") ==> !(final(p).errors@.len() == old(p).errors@.len() && final(p).accept_errors)', ["C05"])], min_sig=1),
+        GF("fragment.rs", "type_condition", extra=[("ensures", "starts_with_on", '(old(p).has_sig() && !(old(p).at_kind(TokenKind::Name) && old(p).current_token->0.data@ == "on"@)) ==> !(final(p).errors@.len() == old(p).errors@.len() && final(p).accept_errors)', ["C05"])], min_sig=2),
         GF("fragment.rs", "inline_fragment", min_sig=4, progress=LOOK, decreases="old(p).fuel(), 2int"),
         GF("fragment.rs", "fragment_spread", min_sig=2, progress=LOOK),
         GF("operation.rs", "operation_definition", min_sig=3, progress=LOOK),
-        GF("operation.rs", "operation_type", min_sig=1, progress=LOOK),
+        GF("operation.rs", "operation_type", extra=[("ensures", "only_query_mutation_subscription", '(old(p).has_sig() && !(old(p).current_token->0.data == "query" || old(p).current_token->0.data == "mutation" || old(p).current_token->0.data == "subscription")) ==> !(final(p).errors@.len() == old(p).errors@.len() && final(p).accept_errors)', ["C05"])], min_sig=1, progress=LOOK),
 
 
         # ---------------- the type-system half of the grammar ----------------
